@@ -15,7 +15,7 @@ CHECKS = {
         "thorough": {"shards": 16, "checks": 3000},
         "rule": "rapid-generated block histories from the empty accumulator (deletion modes none/all/whole trees/sibling pairs/lone root/climbed/"
                 "all-but-one/one/p=1/8,1/2,7/8; addition modes 0,1,2,3,to 2^k-1,to 2^k,past 2^k,random) applied in lock-step to Stump, Pollard and 2-3 "
-                "MapPollard configurations (full and partial, TotalRows from {0..6,8,16,31,32,33,62,63} or uniform 0..63; half of the partial ones 'direct': Modify without a preceding Verify(remember) when every deleted leaf is already cached; before a third of the blocks a partial forest is asked to Prune a drawn subset of what it remembers; before a fifth of the blocks every map forest is handed a block it must REFUSE - 1-3 live leaves followed by a hash that is no leaf - and must stay as it was; in a third of the cases a full or partial map forest JOINS LATE from the bare roots of a drawn block (NewMapPollardFromRoots), learns each block's spent leaves through Verify(remember) and must agree on the roots from then on) and compared with the "
+                "MapPollard configurations (full and partial, TotalRows from {0..6,8,16,31,32,33,62,63} or uniform 0..63; half of the partial ones 'direct': Modify without a preceding Verify(remember) when every deleted leaf is already cached; before a third of the blocks a partial forest is asked to Prune a drawn subset of what it remembers; before a fifth of the blocks every map forest is handed a block it must REFUSE - 1-3 live leaves followed by a hash that is no leaf - and must stay as it was; before a third of the blocks every forest is asked to REMEMBER 1-4 live leaves (the newest one preferred) through Verify(remember), a partial forest alternatively through Ingest or GetMissingPositions+VerifyPartialProof(remember); the argument slices of successive calls of an instance are regions of the same recycled buffers; in a third of the cases a full or partial map forest JOINS LATE from the bare roots of a drawn block (NewMapPollardFromRoots), learns each block's spent leaves through Verify(remember) and must agree on the roots from then on) and compared with the "
                 "reference model after every block, plus the same survivors re-batched (one-shot / split / re-cut). Non-trivial: some block deletes and "
                 "some block adds and at least one of: a whole tree emptied, an empty root overwritten by additions, TreeRows changes, a leaf at row>=2. "
                 "Distinct by SHA-256 of the case JSON. Sizes: forests up to 96 leaves / 14 blocks, 1 case in 40 up to 640 leaves / 26 blocks / 300 additions per block (thorough: 1100 / 40 / 200, 1 in 8 up to 2600 / 48 / 700, 1 in 48 up to 12000 leaves with blocks of thousands). Before the generated search, deterministic scale probes: a hand-shaped history on 2^9, 2^12 and 2^13 leaves (thorough up to 2^15) with leaves climbing two rows, a half emptied with n/2 targets, climbed leaves deleted together with row-0 twins of the same block, and a power-of-two crossing, on 2 map configurations each.",
@@ -25,7 +25,7 @@ CHECKS = {
         "test": "TestC02",
         "quick": {"shards": 8, "checks": 8000},
         "thorough": {"shards": 16, "checks": 5000},
-        "rule": "histories as in C01 (incl. Prune requests and direct partial forests); after every block up to 3 prove requests (one / two / sibling pairs / all / random third / one per tree / one per row, "
+        "rule": "histories as in C01 (incl. Prune requests, 'remember these live leaves' requests and direct partial forests); after every block up to 3 prove requests (one / two / sibling pairs / all / random third / one per tree / one per row, "
                 "in ascending, descending or rapid-permuted order) sent to Pollard, a full MapPollard and a partial MapPollard (restricted to the leaves it "
                 "was asked to remember); each proof compared hash-for-hash with the model's canonical proof and fed to Verify, Pollard.Verify and every "
                 "MapPollard.Verify; Verify's root indexes compared as a set with the trees holding the targets. Non-trivial case: contains a request with "
@@ -200,7 +200,7 @@ CHECKS["C11"] = {
             "from the reference model only: PrevNumLeaves; ToDestroy (empty trees popped by the binary addition, post-block layout, destruction order); "
             "NewDelPos/NewDelHash (every pre-block node on a target->root path, ascending, with the compressed hash of what survives under it, zero if nothing); "
             "NewAddPos/NewAddHash (every added leaf and both children of every post-block inner node holding a new leaf, ascending, no duplicates). "
-            "Non-trivial: contains a block with >=1 deletion and >=2 additions. In 2 of 3 cases a second stump / light client follows the SAME forest embedded behind 2^k (+2^j) opaque leaves, k up to 62 (layouts of up to 63 rows): positions are shifted by the independent geometry and everything is checked again there. Deterministic scale probes: the C01 scale history on 2^9 and 2^12 leaves (thorough up to 2^15), also embedded behind 2^45 opaque leaves.",
+            "Per case the block data is handed over as three exact-size copies, or with every empty list a nil slice, or with deletions and additions as the two halves buf[:d], buf[d:] of one array and proof hashes with spare capacity. Non-trivial: contains a block with >=1 deletion and >=2 additions. In 2 of 3 cases a second stump / light client follows the SAME forest embedded behind 2^k (+2^j) opaque leaves, k up to 62 (layouts of up to 63 rows): positions are shifted by the independent geometry and everything is checked again there. Deterministic scale probes: the C01 scale history on 2^9 and 2^12 leaves (thorough up to 2^15), also embedded behind 2^45 opaque leaves.",
     "assumptions": COMMON_ASSUME,
 }
 MANIFEST_TEXT["C11"] = {
@@ -257,7 +257,7 @@ CHECKS["C10"] = {
     "test": "TestC10",
     "quick": {"shards": 8, "checks": 3000},
     "thorough": {"shards": 16, "checks": 3000},
-    "rule": "rapid-generated sequences of block (in a quarter of them 1-2 added leaves re-create a spent leaf: they carry the hash of a leaf deleted in the same or an earlier block that is not live) / a block every map forest must REFUSE (live leaves followed by a hash that is no leaf) / undo / Verify(remember) of arbitrary live sets / serialize-and-restore steps on Pollard, a full MapPollard and a "
+    "rule": "rapid-generated sequences of block (in a quarter of them 1-2 added leaves re-create a spent leaf: they carry the hash of a leaf deleted in the same or an earlier block that is not live) / a block every map forest must REFUSE (live leaves followed by a hash that is no leaf) / undo / Verify(remember) or GetMissingPositions+VerifyPartialProof(remember) of arbitrary live sets / serialize-and-restore steps on Pollard, a full MapPollard and a "
             "partial MapPollard (generated TotalRows); after EVERY step every instance answers: GetLeafPosition and GetLeafHashPositions for every live "
             "tracked leaf, every deleted leaf, every leaf of an undone branch, fresh values, every inner node hash, every root hash and the zero hash; "
             "GetHash for every position in [0, 2^(rows+1)+8] plus {2^32, 2^32+1, 2^62, 2^63, 2^63+5, 2^64-2, 2^64-1}; tracked-leaf counts. Expected answers "
@@ -281,7 +281,7 @@ CHECKS["C13"] = {
     "quick": {"shards": 8, "checks": 1000},
     "thorough": {"shards": 16, "checks": 2500},
     "rule": "a rapid-generated step sequence (block / undo / Verify(remember); for a partial forest also Prune, Ingest and GetMissingPositions+VerifyPartialProof(remember)) brings a Pollard, a full or a partial "
-            "MapPollard (generated TotalRows) to a reachable state that is first checked against the reference model. Then, per state, enumerated: (a) round trip through "
+            "MapPollard (generated TotalRows) to a reachable state that is first checked against the reference model; after a drawn subset of the earlier steps (in half of the cases after the last but one) the same object is also written, restored and compared. Then, per state, enumerated: (a) round trip through "
             "eight reader set-ups (whole, one byte, halves, data-with-EOF, rapid-drawn chunk sizes, the same with EOF on the last chunk, and whole / chunked with 9000 foreign bytes FOLLOWING the stream in the same reader): no error, reported "
             "and consumed bytes = stream length = Pollard.SerializeSize(), restored instance equals the model (complete observation set; C09 sandwich for a "
             "partial forest) and the original (GetHash everywhere, every leaf position, stored maps incl. remember flags); (b) EVERY strict prefix of the "
@@ -314,7 +314,7 @@ CHECKS["C14"] = {
             "parallel) with the canonical proof of the union, accepted by Verify; GetProofSubset(A, wants) for a drawn sub-list of A in a drawn order returns exactly "
             "that order, the leaves' hashes and the canonical proof of the subset, and an error iff a wanted position is not a target of A (a foreign live leaf is "
             "inserted in 1 of 6 cases); GetMissingPositions(N, A, B) equals need(B\\A) minus (A's proof positions, targets and computable positions), ascending, and the "
-            "union proof assembled from A's hashes plus the true hashes at exactly those positions verifies; MapPollard.GetMissingPositions(req) equals the canonical "
+            "union proof assembled from A's hashes plus the true hashes at exactly those positions verifies; MapPollard.GetMissingPositions(req) - for a first request and, in 3 of 4 cases, a second one of (mostly) the same length handed over in the same recycled argument buffers - equals the canonical "
             "proof positions absent from the forest's exported node map (and never a position the forest must store), VerifyPartialProof with exactly those hashes "
             "succeeds (remember off and on, C09 invariant re-checked), fails when the last one is withheld, and a wrong-hash call with remember=true in front of it is refused without changing what the forest misses. Non-trivial: A and B overlap or some target's sibling "
             "is also a target, and an input is not position-sorted. Deterministic scale probes: states of 1022 and 3000 (thorough 9000) leaves, 9+ trees, 20 held row-0 targets combined with / completed by 1300 newer ones.",
